@@ -167,14 +167,16 @@ def make_spy(base, ctl):
 
         @ue
         async def close(self, file):
-            # the handle is given up whatever happens next
-            for i, h in enumerate(ctl.open_handles):
-                if h[0] == id(file):
-                    ctl.open_handles.pop(i)
-                    ctl.closed_handles += 1
-                    break
-            await ctl.before(self, "close", None)
-            return await base.close(self, file)
+            # the handle counts as open until close() has returned (or failed: then it is given up as well)
+            try:
+                await ctl.before(self, "close", None)
+                return await base.close(self, file)
+            finally:
+                for i, h in enumerate(ctl.open_handles):
+                    if h[0] == id(file):
+                        ctl.open_handles.pop(i)
+                        ctl.closed_handles += 1
+                        break
 
         @ue
         async def rename(self, source, destination):
